@@ -132,6 +132,10 @@ def gen_stack(rng, tier):
             hs = b"".join(b for _, b in E.peer_handshake(rng, c, peer_type=peer))
             data = b"".join(E.frame(b"x" if i == 0 else b"y", more=(i < k - 1)) for i in range(k)) + E.frame(b"after")
             cases.append(["rawpeer %s %s -" % (E.cfg_str(c), E.hexspec(hs + data))])
+    # a ROUTER message sent frame by frame while ANOTHER peer of the ROUTER disconnects or connects in the middle of it
+    for tr in ("tcp", "inproc"):
+        for what in ("close", "connect"):
+            cases.append(["routerframes %s %d %s" % (tr, 3, what)])
     # messages sent FRAME BY FRAME with send() to several peers must reach one peer each, whole
     for sty, rty in (("PUSH", "PULL"), ("DEALER", "DEALER"), ("DEALER", "ROUTER")):
         for peers in (1, 2, 3):
